@@ -5,6 +5,10 @@ impl CodecLaws for u8 {
         let s = self.enc(t) + suffix;
         assert(s[0] == self.enc(t)[0]);
     }
+}
+
+//@lemma C08
+impl TruncLaw for u8 {
     proof fn truncated(&self, t: Tbl, k: int) {
     }
 }
@@ -16,6 +20,10 @@ impl CodecLaws for i8 {
         let s = self.enc(t) + suffix;
         assert(s[0] == self.enc(t)[0]);
     }
+}
+
+//@lemma C08
+impl TruncLaw for i8 {
     proof fn truncated(&self, t: Tbl, k: int) {
     }
 }
@@ -30,6 +38,10 @@ impl CodecLaws for u16 {
         lemma_be_roundtrip(2, v);
         assert((self.enc(t) + suffix).take(2) =~= be(2, v));
     }
+}
+
+//@lemma C08
+impl TruncLaw for u16 {
     proof fn truncated(&self, t: Tbl, k: int) {
         lemma_be_len(2, self.gv() as nat);
     }
@@ -45,6 +57,10 @@ impl CodecLaws for i16 {
         lemma_be_roundtrip(2, v);
         assert((self.enc(t) + suffix).take(2) =~= be(2, v));
     }
+}
+
+//@lemma C08
+impl TruncLaw for i16 {
     proof fn truncated(&self, t: Tbl, k: int) {
         lemma_be_len(2, self.gv() as nat);
     }
@@ -60,6 +76,10 @@ impl CodecLaws for u32 {
         lemma_be_roundtrip(4, v);
         assert((self.enc(t) + suffix).take(4) =~= be(4, v));
     }
+}
+
+//@lemma C08
+impl TruncLaw for u32 {
     proof fn truncated(&self, t: Tbl, k: int) {
         lemma_be_len(4, self.gv() as nat);
     }
@@ -75,6 +95,10 @@ impl CodecLaws for i32 {
         lemma_be_roundtrip(4, v);
         assert((self.enc(t) + suffix).take(4) =~= be(4, v));
     }
+}
+
+//@lemma C08
+impl TruncLaw for i32 {
     proof fn truncated(&self, t: Tbl, k: int) {
         lemma_be_len(4, self.gv() as nat);
     }
@@ -90,6 +114,10 @@ impl CodecLaws for u64 {
         lemma_be_roundtrip(8, v);
         assert((self.enc(t) + suffix).take(8) =~= be(8, v));
     }
+}
+
+//@lemma C08
+impl TruncLaw for u64 {
     proof fn truncated(&self, t: Tbl, k: int) {
         lemma_be_len(8, self.gv() as nat);
     }
@@ -105,6 +133,10 @@ impl CodecLaws for i64 {
         lemma_be_roundtrip(8, v);
         assert((self.enc(t) + suffix).take(8) =~= be(8, v));
     }
+}
+
+//@lemma C08
+impl TruncLaw for i64 {
     proof fn truncated(&self, t: Tbl, k: int) {
         lemma_be_len(8, self.gv() as nat);
     }
@@ -120,6 +152,10 @@ impl CodecLaws for u128 {
         lemma_be_roundtrip(16, v);
         assert((self.enc(t) + suffix).take(16) =~= be(16, v));
     }
+}
+
+//@lemma C08
+impl TruncLaw for u128 {
     proof fn truncated(&self, t: Tbl, k: int) {
         lemma_be_len(16, self.gv() as nat);
     }
@@ -135,6 +171,10 @@ impl CodecLaws for i128 {
         lemma_be_roundtrip(16, v);
         assert((self.enc(t) + suffix).take(16) =~= be(16, v));
     }
+}
+
+//@lemma C08
+impl TruncLaw for i128 {
     proof fn truncated(&self, t: Tbl, k: int) {
         lemma_be_len(16, self.gv() as nat);
     }
@@ -150,6 +190,10 @@ impl CodecLaws for f32 {
         lemma_be_roundtrip(4, v);
         assert((self.enc(t) + suffix).take(4) =~= be(4, v));
     }
+}
+
+//@lemma C08
+impl TruncLaw for f32 {
     proof fn truncated(&self, t: Tbl, k: int) {
         lemma_be_len(4, self.gv() as nat);
     }
@@ -165,6 +209,10 @@ impl CodecLaws for f64 {
         lemma_be_roundtrip(8, v);
         assert((self.enc(t) + suffix).take(8) =~= be(8, v));
     }
+}
+
+//@lemma C08
+impl TruncLaw for f64 {
     proof fn truncated(&self, t: Tbl, k: int) {
         lemma_be_len(8, self.gv() as nat);
     }
